@@ -330,6 +330,12 @@ class SidModel:
             return False
         return all(accepts(e, s) for (k, e), s in zip(kl, segments))
 
+    def accepts_value(self, t: str, k: str, v: str) -> bool:
+        for kk, e in self.parsed[t]:
+            if kk == k:
+                return accepts(e, v)
+        return False
+
     def fields_of(self, t: str, segments: List[str]) -> "OrderedDict[str, str]":
         return OrderedDict((k, s) for (k, _), s in zip(self.parsed[t], segments))
 
